@@ -201,7 +201,7 @@ func wireLen(f frame) int {
 	if f.Op == "close" {
 		return map[string]int{"empty": 0, "one": 1, "code": 2, "reason": 7, "max125": 125, "badutf8": 4, "long": 126}[f.Pc]
 	}
-	return map[string]int{"0": 0, "S": 5, "125": 125, "126": 126, "64k": 65536, "nm16": 5, "nm64": 5, "msb": 5}[f.Len]
+	return map[string]int{"0": 0, "S": 5, "125": 125, "126": 126, "64k": 65536, "nm16": 5, "nm64": 5, "msb": 5, "max63": 5}[f.Len] // msb, max63: bytes actually sent after the header
 }
 
 func isData(f frame) bool { return f.Op == "text" || f.Op == "bin" || f.Op == "cont" }
@@ -352,6 +352,9 @@ func serialise(in input, isServer bool, rot int, rng *rand.Rand) *built {
 		case "msb":
 			b1 |= 127
 			hdr = binary.BigEndian.AppendUint64(hdr, uint64(l)|1<<63)
+		case "max63": // announces 2^63-1 bytes (msb clear); always the last frame: the stream ends after l payload bytes
+			b1 |= 127
+			hdr = binary.BigEndian.AppendUint64(hdr, 1<<63-1)
 		default:
 			b1 |= byte(l)
 		}
